@@ -6,6 +6,6 @@ CONSTANTS NTx = 3 Kind <- KindS Sender <- SenderS Nonce <- NonceS NAccs = 1 Accs
 INIT Init
 NEXT Next
 VIEW view
-INVARIANTS TypeOK ExactlyOnceFIFO DbConsistent DbIsLog DurablePrefix NothingDropped CloseFlushesAll SameOrder NoLostWakeup ExecBatchBound
+INVARIANTS TypeOK ExactlyOnceFIFO DbConsistent DbIsLog DurablePrefix NothingDropped CloseFlushesAll SameOrder NoLostWakeup TokenAfterAppend ExecBatchBound
 PROPERTIES RejectHasNoEffect CapacityOnPush StrictCapacityOnPush ReloadIsTheLog
 CHECK_DEADLOCK FALSE
